@@ -1,52 +1,63 @@
 package main
 
 import (
-	"context"
+	"crypto/sha256"
 	"fmt"
 	"os"
+	"time"
 
+	"github.com/codenotary/immudb/embedded/ahtree"
 	"github.com/codenotary/immudb/embedded/logger"
 	"github.com/codenotary/immudb/embedded/store"
 )
 
+func refRoot(alhs [][sha256.Size]byte) [sha256.Size]byte {
+	if len(alhs) == 1 {
+		return sha256.Sum256(append([]byte{0}, alhs[0][:]...))
+	}
+	k := 1
+	for 2*k < len(alhs) {
+		k *= 2
+	}
+	l, r := refRoot(alhs[:k]), refRoot(alhs[k:])
+	b := append([]byte{1}, l[:]...)
+	b = append(b, r[:]...)
+	return sha256.Sum256(b)
+}
+
+func dump(dir string) {
+	t, err := ahtree.Open(dir+"/aht", ahtree.DefaultOptions().WithSyncThld(3).WithReadOnly(true))
+	fmt.Println("aht open", err)
+	if err != nil {
+		return
+	}
+	var ls [][sha256.Size]byte
+	for n := uint64(1); n <= t.Size(); n++ {
+		d, _ := t.DataAt(n)
+		var a [32]byte
+		copy(a[:], d)
+		ls = append(ls, a)
+		r, _ := t.RootAt(n)
+		fmt.Printf("leaf %d %x rootOk=%v\n", n, d[:4], r == refRoot(ls))
+	}
+	t.Close()
+}
+
 func main() {
-	dir, _ := os.MkdirTemp("/verif/.scratch", "scr")
-	defer os.RemoveAll(dir)
-	lg := logger.NewMemoryLoggerWithLevel(logger.LogError)
-	po := store.DefaultOptions().WithSynced(false).WithLogger(lg)
-	p, err := store.Open(dir+"/p", po)
+	dir := os.Args[1]
+	dump(dir)
+	o := store.DefaultOptions().WithSynced(false).WithEmbeddedValues(true).WithSyncFrequency(time.Millisecond).WithMaxTxEntries(4).WithMaxKeyLen(16).WithMaxValueLen(128).WithLogger(logger.NewSimpleLogger("x", os.Stdout))
+	o.WithAHTOptions(o.AHTOpts.WithWriteBufferSize(1 << 12).WithSyncThld(3))
+	st, err := store.Open(dir, o)
 	if err != nil {
 		panic(err)
 	}
-	ro := store.DefaultOptions().WithSynced(true).WithExternalCommitAllowance(true).WithLogger(lg)
-	r, err := store.Open(dir+"/r", ro)
-	if err != nil {
-		panic(err)
+	fmt.Println("committed", st.LastCommittedTxID(), "pre", st.LastPrecommittedTxID())
+	for id := uint64(1); id <= st.LastPrecommittedTxID(); id++ {
+		h, _ := st.ReadTxHeader(id, true, false)
+		a := h.Alh()
+		fmt.Printf("tx %d alh %x\n", id, a[:4])
 	}
-	ctx := context.Background()
-	for i := 0; i < 5; i++ {
-		tx, _ := p.NewWriteOnlyTx(ctx)
-		tx.Set([]byte(fmt.Sprintf("k%d", i)), nil, []byte("v"))
-		tx.Commit(ctx)
-	}
-	txh := store.NewTx(8, 32)
-	rep := func(id uint64) {
-		b, err := p.ExportTx(id, true, false, txh)
-		if err != nil {
-			panic(err)
-		}
-		_, err = r.ReplicateTx(ctx, b, false, false)
-		fmt.Println("replicate", id, err)
-	}
-	rep(1)
-	rep(2)
-	r.AllowCommitUpto(1)
-	rep(3)
-	n, err := r.DiscardPrecommittedTxsSince(2)
-	fmt.Println("discard", n, err, "pre", r.LastPrecommittedTxID(), "comm", r.LastCommittedTxID())
-	rep(2)
-	rep(3)
-	rep(4)
-	p.Close()
-	r.Close()
+	st.Close()
+	dump(dir)
 }
